@@ -21,7 +21,7 @@ FILES = [
     "qucumber/utils/data.py",
 ]
 REQUIRED_THEOREMS = ["C07_partition", "C07_own_basis", "C07_sizes", "C07_zip_truncation", "C07_negative", "C07_refbasis",
-                     "C07_fit_batches", "C07_no_mutation"]
+                     "C07_fit_batches", "C07_no_mutation", "C07_fit_epoch"]
 RULE = ("case = session on one state object (kind [positive: no bases; complex/density: bases], n) of 1..3 consecutive fit calls, "
         "each call = (N, pos_batch_size B, neg_batch_size in {None, 0, B, other incl. > B and > N}, epochs 1..3, data container in "
         "{tensor(double/float32/int64/uint8), non-contiguous tensor views (transposed / strided with offset), ndarray(float64/"
@@ -260,7 +260,7 @@ def effect_oracle(data, bases, B, negB_eff, mirror, batches):
 
 
 # ------------------------------------------------------------------ one session = consecutive fit calls on one state object
-RUN_KEYS = ("N", "B", "neg", "epochs", "form", "data", "bases", "malformed")
+RUN_KEYS = ("N", "B", "neg", "epochs", "form", "data", "bases", "malformed", "defaults")
 
 
 def as_session(case):
@@ -344,7 +344,10 @@ def one_call(ctx, case, st, kind, run, r_idx, state):
     rec.install()
     try:
         kw = {"input_bases": bases_obj} if kind != "pos" else {}
-        st.fit(data_obj, epochs=epochs, pos_batch_size=B, neg_batch_size=neg, k=1, lr=0.01, progbar=False, callbacks=[marks], **kw)
+        if run.get("defaults"):  # the documented default call: fit(data[, input_bases=...]) -> pos_batch_size=100, neg=None, epochs=100, k=1
+            st.fit(data_obj, callbacks=[marks], **kw)
+        else:
+            st.fit(data_obj, epochs=epochs, pos_batch_size=B, neg_batch_size=neg, k=1, lr=0.01, progbar=False, callbacks=[marks], **kw)
     except Exception as e:
         err = type(e).__name__
     finally:
@@ -398,6 +401,7 @@ def one_call(ctx, case, st, kind, run, r_idx, state):
                 f"shape={'N<B' if N < B else ('N=mB' if N % B == 0 else 'N=mB+r')}" if B else "shape=B=0", f"epochs={epochs}",
                 f"dup_rows={len({tuple(r) for r in data}) < N}", f"call#{r_idx}:data_obj={mode_d}"):
         ctx.count(key)
+    ctx.count("call form=" + ("fit(data) with every option defaulted" if run.get("defaults") else "explicit batch sizes / epochs"))
     if bases is not None:
         ctx.count(f"call#{r_idx}:bases_obj={mode_b}")
         ctx.count(f"bases_form={run.get('bases_form', 'c')}")
@@ -461,6 +465,8 @@ def one_call(ctx, case, st, kind, run, r_idx, state):
         ctx.count(f"malformed[{expect_error}]: error kind " + ("agrees with the model" if err == merr else f"differs (impl {err}, model {merr})"))
         return
     for e_i, ep in enumerate(eps):
+        if len(eps) > 6 and e_i not in (0, 1, len(eps) // 2, len(eps) - 1):
+            continue  # long default runs: the model is compared on 4 epochs, the effect oracles ran on every epoch
         c2 = {**case, "epoch": e_i}
         m = ctx.driver.call("c07.epoch", data=data, bases=bases, posB=B, negB=neg, perm=ep["perm"], negIdx=ep["negIdx"])
         mo = m["out"]
@@ -470,7 +476,7 @@ def one_call(ctx, case, st, kind, run, r_idx, state):
             continue
         impl_b = [{"pos": p, "neg": ng, "bases": bb} for p, ng, bb in ep["batches"]]
         ctx.point("batches", "property", impl_b, mo["batches"], c2, exact=True, sig=f"{sig}/batches",
-                  theorem="C07_partition, C07_own_basis, C07_sizes, C07_negative, C07_fit_batches")
+                  theorem="C07_fit_epoch (= C07_partition, C07_own_basis, C07_sizes, C07_negative composed with C07_fit_batches, C07_refbasis)")
         ctx.point("num_batches", "property", len(impl_b), m["prep"]["numBatches"], c2, exact=True, sig=f"{sig}/num-batches", theorem="C07_sizes")
         ctx.point("randint request", "aux", ep["randint"], mo["randint"], c2, exact=True, sig=f"{sig}/randint")
         ctx.point("randperm N", "aux", ep["permN"], len(m["prep"]["train"]), c2, exact=True, sig=f"{sig}/randperm")
@@ -638,6 +644,15 @@ def gen_cases(ctx, thorough):
             for kind in kinds:
                 n = rng.choice([2, 2, 3]) if kind != "dens" else 2
                 yield ("fit", {"kind": kind, "n": n, "runs": [gen_run(rng, kind, n, N, B, negmode)], "dseed": rng.randrange(1 << 30)})
+    # the documented default call form on a large data set: fit(data) -> pos_batch_size = 100, neg_batch_size = None, 100 epochs (float ceil(N / 100));
+    # N = 1000 (N = mB) and, thorough, N = 1037 (N = mB + r) and a complex state with bases
+    big = [("pos", 1000)] + ([("pos", 1037), ("cplx", 250)] if thorough else [])
+    for kind, N in big:
+        n = 2
+        data, bases = gen_data(rng, kind, n, N)
+        yield ("fit", {"kind": kind, "n": n, "dseed": rng.randrange(1 << 30), "runs": [
+            {"N": N, "B": 100, "neg": None, "epochs": 100, "form": rng.choice(["tensor_f64", "ndarray_f64", "list"]), "data": data, "bases": bases,
+             "bases_form": "c", "defaults": True}]})
     # sessions: consecutive calls on the same state object
     for i in range(500 if thorough else 60):
         kind = ["cplx", "dens", "pos"][i % 3] if i % 4 else rng.choice(["cplx", "dens"])
